@@ -11,7 +11,7 @@ package dag
 //@ spec func EdgesOK(g *Graph, v *Vertex) bool = (forall i int :: 0 <= i && i < len(v.Children) ==> Registered(g, v.Children[i]))
 //@     && (forall i int :: 0 <= i && i < len(v.Parents) ==> Registered(g, v.Parents[i]))
 //@ spec func VertexOK(g *Graph, id ID) bool = g.Vertices[id] != nil && g.Vertices[id].ID == id && g.Vertices[id].Task != nil && g.Vertices[id].Task.Fn != nil
-//@     && g.Vertices[id].Task.ID == id && EdgesOK(g, g.Vertices[id])
+//@     && g.Vertices[id].Task.ID == id && EdgesOK(g, g.Vertices[id]) && g.Vertices[id].Retries < 9223372036854775807
 //@ spec func StatusOK() bool = forall u *Vertex :: u != nil ==> runPending <= u.status && u.status <= runDone
 //@ spec func WF(g *Graph) bool = g != nil && g.Vertices != nil && g.errs != nil && g.maxParallel >= 1 && (forall id ID :: (id in g.Vertices) ==> VertexOK(g, id))
 
@@ -65,6 +65,7 @@ package dag
 //@ func (*Graph).TaskRetries
 //@   props C16 C13 C19
 //@   requires WF(g)
+//@   requires retries.sane: retries < 9223372036854775807    //# a retry count of MaxInt would make the attempt counter wrap around
 //@   allocates Vertex
 //@   modifies mapof(g.Vertices), g.dotDiagram, g.errs.Errors, Vertex.Retries, Vertex.Task
 //@   ensures retries.wf {C16}: WF(g)
@@ -119,3 +120,88 @@ package dag
 //@   loop "for _, c := range v.Parents"
 //@     invariant skip.sofar: forall i int :: 0 <= i && i <= $idx ==> v.Parents[i].status == runSkip
 //@     invariant skip.onlyinv: forall u *Vertex :: u.status == old(u.status) || u.status == runSkip
+
+// ---- Run: goroutine bodies ----------------------------------------------------------------------
+// The per-task mutex is abstracted by a ghost counter of the task locks held by the current goroutine.
+//@ ghost local $tasklocks int
+//@ func (*Task).Lock
+//@   props C15 C19
+//@   trusted
+//@   requires t != nil
+//@   modifies $tasklocks
+//@   ensures $tasklocks == old($tasklocks) + 1
+//@ func (*Task).Unlock
+//@   props C15 C19
+//@   trusted
+//@   requires t != nil
+//@   modifies $tasklocks
+//@   ensures $tasklocks == old($tasklocks) - 1
+
+// Reporter for a vertex marked skip: exactly one message, no error, the task function is not run.
+//@ func (*Graph).Run$1
+//@   props C14 C13 C19
+//@   requires skipmsg.pre: v != nil && done != nil
+//@   modifies $sends_done, $sent_done
+//@   ensures skipmsg.one {C14,C13}: $sends_done == old($sends_done) + 1 && $sent_done.ID == v.ID && $sent_done.Error == nil
+
+// Reporter for a vertex that is not started because an error was already recorded.
+//@ func (*Graph).Run$2
+//@   props C14 C13 C19
+//@   requires errmsg.pre: v != nil && done != nil
+//@   modifies $sends_done, $sent_done
+//@   ensures errmsg.one {C14,C13}: $sends_done == old($sends_done) + 1 && $sent_done.ID == v.ID && $sent_done.Error == ErrorTaskSkipped
+
+// Release of the concurrency slot (deferred by the worker).
+//@ func (*Graph).Run$3$1
+//@   props C15 C19
+//@   requires semaphore != nil
+//@   modifies $recvs_semaphore, $received_semaphore
+//@   ensures slot.release {C15}: $recvs_semaphore == old($recvs_semaphore) + 1
+
+// The worker: takes a slot, locks the task, runs the task function at most Retries+1 times strictly one after
+// another stopping at the first nil, flushes each attempt's buffered output under the buffer mutex, reports once.
+// Its frame proves that task status and the error list are written by the scheduler loop only.
+//@ func (*Graph).Run$3
+//@   props C13 C14 C15 C19
+//@   requires worker.pre: v != nil && done != nil && semaphore != nil && v.Task != nil && v.Task.Fn != nil && g != nil && v.Retries < 9223372036854775807
+//@   modifies $sends_done, $sent_done, $sends_semaphore, $sent_semaphore, $recvs_semaphore, $received_semaphore, $tasklocks, $out, $out_other, $compout,
+//@     $cmdcalls, $cmdfn, $cmdctx, $cmdview, $cmdviewfinal, $cmdargs, $cmdresult, $exits, $exitcode
+//@   ensures worker.msg {C13,C14}: $sends_done == old($sends_done) + 1 && $sent_done.ID == old(v.ID)
+//@   ensures worker.slot {C15}: $sends_semaphore == old($sends_semaphore) + 1 && $recvs_semaphore == old($recvs_semaphore) + 1
+//@   ensures worker.lock {C15}: $tasklocks == old($tasklocks)
+//@   ensures worker.attempts {C13}: old(v.Retries) >= 0 ==> $cmdcalls - old($cmdcalls) >= 1 && $cmdcalls - old($cmdcalls) <= old(v.Retries) + 1
+//@   ensures worker.result {C13,C14}: old(v.Retries) >= 0 ==> $sent_done.Error == $cmdresult
+//@   loop "for i := 0; i <= v.Retries; i++"
+//@     invariant att.count {C13}: 0 <= i && $cmdcalls == old($cmdcalls) + i && (i > 0 ==> err == $cmdresult && err != nil)
+//@     invariant att.held {C15}: $sends_semaphore == old($sends_semaphore) + 1 && $recvs_semaphore == old($recvs_semaphore) && $tasklocks == old($tasklocks) + 1
+//@     invariant att.nosend {C13}: $sends_done == old($sends_done)
+//@     invariant att.same: v == old(v) && v.Retries == old(v.Retries) && v.ID == old(v.ID) && v.Task != nil && v.Task.Fn != nil && done == old(done) && g != nil && g == old(g)
+//@     invariant att.bound {C13}: i <= v.Retries + 1 || i == 0
+//@     step att.once {C13,C15}: !$exit ==> $cmdcalls == old_iter($cmdcalls) + 1 && i == old_iter(i) + 1 && err != nil
+//@     step att.stop {C13}: $exit && $entered ==> $cmdcalls == old_iter($cmdcalls) + 1 && err == nil && err == $cmdresult
+//@     decreases v.Retries - i + 1
+
+// Logging helpers: pure.
+//@ func (*Graph).color
+//@   props C19
+//@   requires g != nil
+//@   modifies
+//@ func (*Graph).colorInfo
+//@   props C19
+//@   requires g != nil
+//@   modifies
+//@ func (*Graph).colorInfoBold
+//@   props C19
+//@   requires g != nil
+//@   modifies
+//@ func (*Graph).colorError
+//@   props C19
+//@   requires g != nil
+//@   modifies
+//@ func (*Graph).colorErrorBold
+//@   props C19
+//@   requires g != nil
+//@   modifies
+//@ func durationStr
+//@   props C19
+//@   modifies
